@@ -453,6 +453,69 @@ def _idents(e):
     return out
 
 
+def r_seg_per_query(rep, f):
+    """every evaluation of the continuous solution looks its segment up for THAT time: in each function / closure of
+    ContinuousOutput that interpolates (directly or through a local closure), a call of find_segment / find_segment_extrapolate /
+    evaluate* is made unconditionally (not inside an `if`/`match` arm or a loop body of that scope). A segment remembered
+    from the previous query is only right for ascending queries on a forward run."""
+    INTERP_ = "dense::DenseSegment::interpolate"
+    LOOK = ("solve::cont::ContinuousOutput::find_segment", "solve::cont::ContinuousOutput::find_segment_extrapolate",
+            "solve::cont::ContinuousOutput::evaluate", "solve::cont::ContinuousOutput::evaluate_extrapolate")
+    n = 0
+    for fn, b in f.bodies.items():
+        if not fn.startswith("solve::cont::ContinuousOutput::") or fn.endswith(("::find_segment", "::find_segment_extrapolate")):
+            continue
+        closures = tast.find(b["body"], lambda z: z.get("k") == "Closure")
+        # scopes: the function body and every closure body; a node belongs to the innermost scope containing it
+        scopes = [("fn", b["body"])] + [("closure", c["body"]) for c in closures]
+
+        def owner(node):
+            best = None
+            for kind, sc in scopes:
+                if tast.contains(sc, lambda z: z is node):
+                    if best is None or tast.contains(best[1], lambda z: z is sc):
+                        best = (kind, sc)
+            return best
+        # local closures that interpolate
+        interp_closures = set()
+        for l in tast.find(b["body"], lambda z: z.get("k") == "Let" and z["pat"].get("k") == "PBind" and (z.get("init") or {}).get("k") == "Closure"):
+            if tast.contains(l["init"]["body"], lambda z: z.get("k") == "MethodCall" and z.get("def") == INTERP_):
+                interp_closures.add(l["pat"]["id"])
+        uses = [c for c in tast.find(b["body"], lambda z: z.get("k") == "MethodCall" and z.get("def") == INTERP_)]
+        uses += [c for c in tast.find(b["body"], lambda z: z.get("k") == "Call" and (z.get("f") or {}).get("k") == "Path" and (z.get("f") or {}).get("id") in interp_closures)]
+        for u in uses:
+            ow = owner(u)
+            if ow is None:
+                continue
+            kind, sc = ow
+            # the closure that merely wraps interpolate gets its segment as a parameter: its callers are judged instead
+            if kind == "closure" and any(l["init"]["body"] is sc and l["pat"]["id"] in interp_closures for l in tast.find(b["body"], lambda z: z.get("k") == "Let" and (z.get("init") or {}).get("k") == "Closure")):
+                continue
+            n += 1
+            key = "R-SEG-LOOKUP:%s:per-query:%d" % (fn.split("::")[-1], n)
+            looks = [c for c in tast.find(sc, lambda z: z.get("k") == "MethodCall" and z.get("def") in LOOK) if owner(c) and owner(c)[1] is sc]
+
+            def unconditional(c):
+                for nd, parents in tast.find_with_parents(sc, lambda z: z is c):
+                    for i_, p_ in enumerate(parents):
+                        child = parents[i_ + 1] if i_ + 1 < len(parents) else c
+                        if p_.get("k") == "If" and not (p_["cond"] is child or tast.contains(p_["cond"], lambda z: z is c)):
+                            return False
+                        if p_.get("k") == "Match" and not tast.contains(p_["scrut"], lambda z: z is c):
+                            return False
+                        if p_.get("k") in ("For", "While", "Loop"):
+                            return False
+                    return True
+                return False
+            if any(unconditional(c) for c in looks):
+                rep.ok("R-SEG-LOOKUP", key, "the segment is looked up for the queried time on every evaluation")
+            else:
+                rep.violation("R-SEG-LOOKUP", key, "`%s` uses a segment that is %s for this query: a segment kept from an earlier query is silently extrapolated when the "
+                              "queries are not ascending in the direction of integration" % (tast.render(u)[:50], "looked up only conditionally" if looks else "not looked up"), u.get("sp"))
+    if n < 2:
+        rep.inconc("R-SEG-LOOKUP", "R-SEG-LOOKUP:per-query:floor", "only %d interpolating evaluation(s) found in ContinuousOutput" % n)
+
+
 def r_seg_lookup(rep, f):
     """segment lookup is direction-agnostic: a time inside a segment is found whether the segment was produced by a
     forward (h > 0) or a backward (h < 0) step, a time well outside is not. The membership test that guards `return
